@@ -328,6 +328,46 @@ fn changing_value_cases(rep: &mut Report) {
     std::env::remove_var(NAME);
 }
 
+/// A variable whose value is not valid Unicode cannot be spliced into a `String` path: the reference
+/// either stays as it is (treated like an unset variable) or is replaced by the value's text in some
+/// lossy rendering - but not by something else (an empty string, say).
+fn non_unicode_value_case(rep: &mut Report) {
+    use std::os::unix::ffi::OsStringExt;
+    let bad = std::ffi::OsString::from_vec(vec![b'v', 0xff, 0xfe, b'w']);
+    std::env::set_var("L4V_BADUTF", &bad);
+    for site in 0..2 {
+        let sc = Scratch::new("c19bad");
+        let raw = format!("{}/a-$ENV{{L4V_BADUTF}}-z.log", sc.path.to_str().unwrap());
+        rep.case_enumerated(true);
+        let r = trap::catch(|| -> Result<(), String> {
+            match site {
+                0 => FileAppender::builder().build(&raw).map(|_| ()).map_err(|e| e.to_string()),
+                _ => RollingFileAppender::builder()
+                    .build(&raw, Box::new(CompoundPolicy::new(Box::new(SizeTrigger::new(1 << 30)), Box::new(DeleteRoller::new()))))
+                    .map(|_| ())
+                    .map_err(|e| e.to_string()),
+            }
+        });
+        let names: Vec<Vec<u8>> = std::fs::read_dir(&sc.path).map(|rd| rd.flatten().map(|e| {
+            use std::os::unix::ffi::OsStrExt;
+            e.file_name().as_bytes().to_vec()
+        }).collect()).unwrap_or_default();
+        rep.count("locations_compared", 1);
+        let ok = match &r {
+            Err(_) => false,
+            Ok(Err(_)) => names.is_empty(), // refusing the path is acceptable, creating a wrong file is not
+            Ok(Ok(())) => names.len() == 1 && (names[0] == b"a-$ENV{L4V_BADUTF}-z.log".to_vec()
+                || (names[0].starts_with(b"a-v") && names[0].ends_with(b"w-z.log"))),
+        };
+        if !ok {
+            rep.violation("C19:wrong-location:value-that-is-not-unicode", json!({"input": "a-$ENV{L4V_BADUTF}-z.log", "call_site": site,
+                "value_bytes": "76 ff fe 77", "created": names.iter().map(|n| String::from_utf8_lossy(n).into_owned()).collect::<Vec<_>>(),
+                "result": format!("{:?}", r.map_err(|p| p.message))}));
+        }
+    }
+    std::env::remove_var("L4V_BADUTF");
+}
+
 fn directory_cases(rep: &mut Report) {
     // a value containing path separators: the file lands in the expanded directory. Expansion is textual:
     // a value that starts with '/' in the middle of a path does not make the path start over.
@@ -385,6 +425,7 @@ pub fn run(rep: &mut Report) {
     if rep.only.is_none() {
         leading_reference_cases(rep);
         changing_value_cases(rep);
+        non_unicode_value_case(rep);
     }
     rep.require(rep.counter("locations_compared") > 1000, "fewer than 1000 locations compared");
     rep.require(rep.counter("strings_with_at_least_one_substitution") > 500, "too few strings with substitutions");
